@@ -44,7 +44,7 @@ ASSUMPTIONS = [
 
 def budget(tier):
     if tier == 'thorough':
-        return {'seeds': 1500000, 'chunk': 1000, 'wall_cap': 1500, 'extra': {'big': True}}
+        return {'seeds': 3500000, 'chunk': 2000, 'wall_cap': 1200, 'extra': {'big': True}}
     return {'seeds': 80000, 'chunk': 500, 'wall_cap': 240, 'extra': None}
 
 
